@@ -36,11 +36,11 @@ def main():
     if hits:
         print("[setup] forbidden declarations in the Coq sources:\n" + "\n".join(hits))
         rc = 1
-    ok, out = core.make(["all"], timeout=7000)
+    ok, out = core.make_all(["all"], timeout=7000)
     tail = "\n".join(out.strip().split("\n")[-15:])
     if not ok:
         # one broken file must not stop the others from being built: -k, then report
-        ok2, out2 = core.make(["-k", "all"], timeout=7000)
+        ok2, out2 = core.make_all(["-k", "all"], timeout=7000)
         print("[setup] make failed (tail):\n" + "\n".join(out2.strip().split("\n")[-40:]))
         print("[setup] (each property's own check reports its broken obligations; setup continues)")
     print(f"[setup] done in {time.time()-t0:.0f}s")
